@@ -141,9 +141,24 @@ def runQueue (prop : String) (f : List String) (obsS : String) : Verdict :=
   | _ => badCase
 
 /-- zero-capacity queue: outside the model; only absence of panics / blocking is checked (C20) -/
-def runQueue0 (_prop : String) (_f : List String) (obsS : String) : Verdict :=
-  let bad := (obsS.splitOn ";").any fun o => o.startsWith "panic" || o.startsWith "blocked"
-  ⟨true, "", "", if bad then some ("C20", "a zero-capacity queuing sink panicked or blocked a caller") else none, ["queue-capacity-0"], false⟩
+def runQueue0 (_prop : String) (f : List String) (obsS : String) : Verdict :=
+  let obs := obsS.splitOn ";"
+  let bad := obs.any fun o => o.startsWith "panic" || o.startsWith "blocked"
+  -- a rendezvous queue holds nothing: while the worker is inside the wrapped sink no emit can be accepted
+  let ops := match f with | [_, _, opsS] => splitList opsS "," | _ => []
+  let over : Bool := ((ops.zip obs).foldl (fun (acc : Bool × Bool) (p : String × String) =>
+      let (inside, viol) := acc
+      let (op, o) := p
+      let res := (o.splitOn "|").headD ""
+      let evs := (o.splitOn "|").getD 1 ""
+      let entered := (evs.splitOn ",").any (·.startsWith "E")
+      let viol' := viol || (inside && op.startsWith "e" && res.startsWith "ok")
+      let inside' := if (op == "k" || op == "z" || op == "p" || op.startsWith "x") && res == "ok" then entered else (inside || entered)
+      (inside', viol')) (false, false)).2
+  let v := if bad then some ("C20", "a zero-capacity queuing sink panicked or blocked a caller")
+    else if over then some ("C10", "a zero-capacity queue accepted a metric while the worker was busy inside the wrapped sink (capacity exceeded)")
+    else none
+  ⟨true, "", "", v, ["queue-capacity-0"], false⟩
 
 def runStress (_prop : String) (_f : List String) (obsS : String) : Verdict :=
   if obsS == "ok" then ⟨true, "ok", "ok", none, ["stress"], false⟩
@@ -160,6 +175,19 @@ def runBurst (_prop : String) (_f : List String) (obsS : String) : Verdict :=
 def runDropRace (_prop : String) (_f : List String) (obsS : String) : Verdict :=
   if obsS == "ok" then ⟨true, "ok", "ok", none, ["drop-race"], false⟩
   else ⟨true, obsS, obsS, some ("C09+C08", "concurrent drops of the last handles: " ++ obsS), ["drop-race"], false⟩
+
+def runFirst (_prop : String) (_f : List String) (obsS : String) : Verdict :=
+  if obsS == "ok" then ⟨true, "ok", "ok", none, ["first-emits-together"], false⟩
+  else ⟨true, obsS, obsS, some ("C08+C10", "first emits on a fresh sink from several handles at once: " ++ obsS), ["first-emits-together"], false⟩
+
+def runNoThread (_prop : String) (_f : List String) (obsS : String) : Verdict :=
+  if obsS.startsWith "accepted-a-metric" then
+    ⟨true, obsS, obsS, some ("C08+C11", "the worker thread could not be created: " ++ obsS), ["no-worker-thread"], false⟩
+  else ⟨true, obsS, obsS, none, ["no-worker-thread-" ++ (if obsS == "constructor-failed-loudly" then "loud" else "inconclusive")], false⟩
+
+def runUnwind (_prop : String) (_f : List String) (obsS : String) : Verdict :=
+  if obsS == "ok" then ⟨true, "ok", "ok", none, ["last-drop-by-unwinding"], false⟩
+  else ⟨true, obsS, obsS, some ("C09+C08", "last handle dropped by a panicking owner: " ++ obsS), ["last-drop-by-unwinding"], false⟩
 
 def runDeep (_prop : String) (_f : List String) (obsS : String) : Verdict :=
   if obsS == "ok" then ⟨true, "ok", "ok", none, ["deep-unbounded"], false⟩
